@@ -32,3 +32,22 @@ func TestDbg(t *testing.T) {
 		t.Logf("  left=%v notes=%v tls13=%v", left, w.Notes, w.TLS13)
 	}
 }
+
+func TestDbgUnknown(t *testing.T) {
+	cells := buildCells()
+	perm := rand.New(rand.NewPCG(1, 2)).Perm(len(cells))
+	seen := map[string]int{}
+	for idx := 0; idx < 120; idx++ {
+		rng := rand.New(rand.NewPCG(uint64(idx), 99))
+		sp := makeSpec(cells[perm[idx%len(cells)]], idx, rng)
+		cr := runCase(sp)
+		for _, o := range cr.Obs {
+			if o.Log != nil && o.Log.ServerHello != nil {
+				for _, e := range o.Log.ServerHello.UnknownExtensions {
+					seen[sp.Cell.Peer+" "+hx(e)]++
+				}
+			}
+		}
+	}
+	t.Logf("%v", seen)
+}
